@@ -630,6 +630,8 @@ impl AssemblyCode {
                             flags = FlagsState::Y;
                         }
                         AsmMnemonic::DEC | AsmMnemonic::INC => {
+                            // The flags now describe the incremented memory location
+                            flags = FlagsState::Unknown;
                             if let Some(v) = &accumulator {
                                 if v.eq(&inst.dasm_operand) {
                                     accumulator = None;
@@ -647,6 +649,7 @@ impl AssemblyCode {
                             }
                         }
                         AsmMnemonic::INX | AsmMnemonic::DEX => {
+                            flags = FlagsState::Unknown;
                             if let Some(v) = &accumulator {
                                 if v.ends_with(",X") {
                                     accumulator = None;
@@ -660,6 +663,7 @@ impl AssemblyCode {
                             x_register = None;
                         }
                         AsmMnemonic::INY | AsmMnemonic::DEY => {
+                            flags = FlagsState::Unknown;
                             if let Some(v) = &accumulator {
                                 if v.ends_with(",Y") {
                                     accumulator = None;
